@@ -28,6 +28,18 @@ CLAIMS = {
         engine="z3",
     ),
 }
+CLAIMS["C11"] = dict(
+    text="Every harness is in frame style: all writable buffers (selected column, other columns, spare capacity limb, scratch) are fully symbolic before the call; the solver decides that afterwards the selected column equals a function of the inputs only, that each of its limbs was written (zero where the size rule says so), and that no other word changed. Decided for the DFT-domain shape functions of reference/fft64/vec_znx_dft.rs (with substituted exact integer kernels, including (step, offset) selections past the input) and for the coefficient-domain families shared with C08/C09.",
+    note="n=2 and 3 columns for DFT-domain functions; floating-point leaf kernels are replaced by exact integer kernels on the bit patterns (harness type Probe), so only the repository's shape/selection/zero-fill logic is decided there. vmp/svp/convolution shape functions, NTT120 family and poulpy-core operations are outside this revision's claim.",
+    technique=KANI + "; frame (two-state) assertions over fully symbolic prior output contents",
+    ref="DESIGN.md §5 C11",
+)
+CLAIMS["C18"] = dict(
+    text="read_from of VecZnx / ScalarZnx / MatZnx on streams whose every byte is symbolic (all header words incl. products overflowing usize), at every enumerated truncation point: no panic/overflow/out-of-bounds, Err leaves the metadata unchanged, Ok leaves dimensions consistent with the buffer (size <= max_size, n*cols*max_size*8 within the buffer) and accessors in bounds; write->read round trips into equal, larger and re-used receivers reproduce content and dimensions.",
+    note="Small concrete receivers; stream length enumerated (field boundaries +-1). std::fmt::format stubbed (error messages), io::Result forgotten. poulpy-core / poulpy-bin-fhe wrapper readers are not yet encoded (outside this revision's claim).",
+    technique=KANI + "; stream bytes fully symbolic",
+    ref="DESIGN.md §5 C18",
+)
 NA = {}
 DEFAULT_NA = "not yet implemented in this revision (work in progress)"
 
